@@ -20,7 +20,7 @@ TYPES = {'2dyn': (2, -1), '3f6': (3, 6), '1f12': (1, 12)}
 # shapes (segments, coefficients) per type: base, same, other segment count, other coefficient count, a second other coefficient count
 # (so that sequences move between two counts above the static-table limit 8 in both directions: 4->12->9, 9->12->9, 12->9)
 SHAPES = {'2dyn': [(2, 4), (2, 4), (3, 4), (2, 9), (2, 12)], '3f6': [(2, 6), (2, 6), (1, 6), (2, 4), (3, 5)], '1f12': [(2, 9), (2, 9), (3, 9), (2, 4), (2, 12)]}
-OPS = ['E0', 'E1', 'E2', 'Us', 'Ug', 'Uc', 'Ud', 'Ub', 'CP', 'AS', 'MV', 'DV', 'EG', 'SA']
+OPS = ['E0', 'E1', 'E2', 'Us', 'Ug', 'Uc', 'Ud', 'Ub', 'CP', 'MC', 'AS', 'MV', 'DV', 'EG', 'SA']
 
 
 def bounds(tier):
@@ -107,6 +107,11 @@ class Gen:
             q = 'Q%d' % self.ncopy
             self.ncopy += 1
             s.add('pp.copy', q, 'P')
+            self.state[q] = self.state['P']
+        elif o == 'MC':
+            q = 'Q%d' % self.ncopy
+            self.ncopy += 1
+            s.add('pp.movector', q, 'P')
             self.state[q] = self.state['P']
         elif o == 'AS':
             q = 'Q%d' % self.ncopy
